@@ -31,13 +31,13 @@ def render(kinds):
         elif k == "D1":
             lines.append("##d1")
         elif k == "D2":
-            lines.append("##gff-v 3")
+            lines.append("##gff-version 3")
         elif k == "D3":
             lines.append("###note")
         elif k == "D0":
             lines.append("##")
         elif k == "C":
-            lines.append("#a comment")
+            lines.append("#a comment" if i % 2 else "#!genome-build GRCx1")      # (a '#!' pragma line is a line beginning with a single '#')
         elif k == "B":
             lines.append("")
         elif k == "FASTA":
